@@ -362,3 +362,90 @@ type TJsonTag struct {
 	C bool   `plenc:"3" json:"-"`
 	D uint8  `plenc:"4" json:"delta,omitempty"`
 }
+
+// ---- shapes added after the first seeded-change campaign
+
+// named byte slices are NOT []byte to plenc: they are packed varint slices
+type MyBytes []byte
+
+type TNamedBytes struct {
+	A MyBytes `plenc:"1"`
+	B []MyU8  `plenc:"2"`
+	C []byte  `plenc:"3"`
+}
+
+type MyU8 uint8
+
+// pointer-shaped structs nested in pointer-shaped structs (direct interface words)
+type TWrapIn struct {
+	P *int `plenc:"1"`
+}
+
+type TWrap struct {
+	In TWrapIn `plenc:"1"`
+}
+
+// fields declared out of index order
+type TDesc struct {
+	C string `plenc:"3"`
+	A int    `plenc:"1"`
+	B uint   `plenc:"2"`
+}
+
+// the same slice / map type with and without the proto option in one struct
+type TProtoMix struct {
+	A []string `plenc:"1,proto"`
+	B []string `plenc:"2"`
+}
+
+type TProtoMix2 struct {
+	B []string `plenc:"1"`
+	A []string `plenc:"2,proto"`
+}
+
+// full-width flat integers (the descriptor renders these exactly)
+type TFlat64 struct {
+	A int64 `plenc:"1,flat"`
+	B int   `plenc:"2,flat"`
+}
+
+type TopBytes = []byte
+
+// ---- C03: the removed field is the last one / declared first with the highest index
+
+type KxLastCounted struct {
+	A int      `plenc:"1"`
+	B string   `plenc:"3"`
+	X []string `plenc:"2"`
+}
+
+type KxLastMap struct {
+	A int            `plenc:"1"`
+	B string         `plenc:"3"`
+	X map[string]int `plenc:"2"`
+}
+
+type KxLastStructs struct {
+	A int    `plenc:"1"`
+	B string `plenc:"3"`
+	X []TIn  `plenc:"2"`
+}
+
+type KxLastStr struct {
+	A int    `plenc:"1"`
+	B string `plenc:"3"`
+	X string `plenc:"2"`
+}
+
+type KxFirstHigh struct {
+	X int    `plenc:"7"`
+	A int    `plenc:"1"`
+	B string `plenc:"3"`
+}
+
+// KxPrimeAsc: evolved type with fields in ascending index order
+type KxPrimeAsc struct {
+	Aye int    `plenc:"1"`
+	Bee string `plenc:"3"`
+	New int    `plenc:"9"`
+}
